@@ -198,6 +198,68 @@ def run(ctx, config='rel-all'):
             ctx.violation('O2', arena.short(roles['Allocator::grow']), 'in-place:missing', 'grow has no in-place extension path through the bumping function')
     copy_discipline(ctx, A, roles, specs, 'R3', 7)
     check_err_untouched(ctx, db, config, roles, 'R4')
+    check_alloc_defaults(ctx, db, config, 'R5')
+
+
+def check_alloc_defaults(ctx, db, config, RULE='R5'):
+    """the provided methods of the crate's Alloc trait that the collections go through (alloc_zeroed, alloc_array,
+    usable_size, grow_in_place / shrink_in_place) and the &Bump impl's dealloc"""
+    p = lambda i: ('param', i)
+    n = 0
+
+    def fn(path_suffix):
+        bs = [b for b in db.fn_bodies() if b['kind'] == 'assoc_fn' and b['id'].endswith(path_suffix)]
+        if not bs:
+            ctx.anchor_missing(RULE, path_suffix)
+        return bs[0] if bs else None
+
+    def verdict(name, okv, what, b):
+        if okv:
+            ctx.ok(RULE, '%s: %s' % (name, what), 'call / return term identity')
+        else:
+            ctx.violation(RULE, name, 'default:' + what.replace(' ', '_')[:50], '%s must be: %s' % (name, what), b.get('span'))
+    b = fn('alloc::Alloc::alloc_zeroed')
+    if b:
+        I, r = arena.run_fn(ctx, b['id'], config)
+        own = [e for e in r.events if len(e.stack) == 1]
+        al = [e for e in own if e.kind == 'call' and (e.extra.get('trait_path') or '') == 'alloc::Alloc::alloc']
+        wb = [e for e in own if e.kind == 'copy' and e.callee == 'write_bytes']
+        okv = len(al) == 1 and al[0].args == [p(1), p(2)] and len(wb) == 1 and wb[0].args[1] == C(0) and wb[0].args[2] == app('size', p(2)) and al[0].ret in subterms(wb[0].args[0]) and r.ret == al[0].ret
+        n += 1
+        verdict('Alloc::alloc_zeroed', okv, 'alloc(layout), then exactly layout.size() zero bytes written at the returned pointer, which is returned', b)
+    b = fn('alloc::Alloc::alloc_array')
+    if b:
+        I, r = arena.run_fn(ctx, b['id'], config)
+        own = [e for e in r.events if len(e.stack) == 1]
+        la = [e for e in own if e.kind == 'call' and (e.callee or '').endswith('Layout::array')]
+        al = [e for e in own if e.kind == 'call' and (e.extra.get('trait_path') or '') == 'alloc::Alloc::alloc']
+        okv = len(la) == 1 and la[0].args == [p(2)] and len(al) == 1 and al[0].args[0] == p(1) and la[0].ret in subterms(al[0].args[1]) and any(f[0] == 'lt' and f[1] == C(0) for f in al[0].state.facts)
+        n += 1
+        verdict('Alloc::alloc_array', okv, 'alloc(Layout::array::<T>(n)) only for a non-zero size, Err otherwise', b)
+    b = fn('alloc::Alloc::usable_size')
+    if b:
+        I, r = arena.run_fn(ctx, b['id'], config)
+        sz = app('size', p(2))
+        okv = r.ret is not None and r.ret[0] == 'agg' and [v for _, v in r.ret[3]] == [sz, sz]
+        n += 1
+        verdict('Alloc::usable_size', okv, '(layout.size(), layout.size())', b)
+    for name in ('grow_in_place', 'shrink_in_place'):
+        b = fn('alloc::Alloc::' + name)
+        if b:
+            I, r = arena.run_fn(ctx, b['id'], config)
+            alts = [t for t, _ in arena.alternatives(I, r.ret, set())] if r.ret is not None else []
+            us = [e for e in r.events if len(e.stack) == 1 and e.kind == 'call' and (e.extra.get('trait_path') or '') == 'alloc::Alloc::usable_size']
+            okv = len(us) == 1 and {t[2] for t in alts if t[0] == 'agg'} == {'Ok', 'Err'} and not [e for e in r.events if e.kind in ('store', 'copy')]
+            n += 1
+            verdict('Alloc::' + name, okv, 'a pure test against usable_size (no memory is touched): Ok or Err(CannotReallocInPlace)', b)
+    b = fn("Bump<MIN_ALIGN> as alloc::Alloc>::dealloc")
+    if b:
+        I, r = arena.run_fn(ctx, b['id'], config)
+        ce = [e for e in r.events if len(e.stack) == 1 and e.kind == 'call' and (e.callee or '').endswith('Bump::<MIN_ALIGN>::dealloc')]
+        okv = len(ce) == 1 and ce[0].args[1:] == [p(2), p(3)]
+        n += 1
+        verdict('<&Bump as Alloc>::dealloc', okv, 'forwards (ptr, layout) to Bump::dealloc', b)
+    ctx.floor(RULE, n, 6, 'provided methods of the Alloc trait used by the collections')
 
 
 def check_err_untouched(ctx, db, config, roles, RULE='R4'):
